@@ -515,6 +515,16 @@ pub fn fault_variants(base: &RunSpec, yields: &[(u32, u8, u32)], cap_per_op: u32
                     *dp = Some(k);
                     true
                 }
+                (Op::CloneFromX { panic_at, dp, .. }, 6) => {
+                    *panic_at = Some(k);
+                    *dp = None;
+                    true
+                }
+                (Op::CloneFromX { panic_at, dp, .. }, 7) => {
+                    *panic_at = None;
+                    *dp = Some(k);
+                    true
+                }
                 (Op::CreateLazy { fail, .. }, 4) => {
                     *fail = true;
                     true
